@@ -266,6 +266,20 @@ def rb_list_str(rs):
 
 def gen_fp_op(rng, kind=None):
     kind = kind or wchoice(rng, [(1, "fp_p"), (1, "fp_np"), (1, "fp_lp"), (1, "fp_fl")])
+    if rng.random() < 0.2:
+        # near-full utilisation: busy windows spanning several jobs of the analysed task
+        hp, (a, C) = gen.gen_dense_taskset(rng)
+        others = [("rbf", x, ("sc", c)) for x, c in hp]
+        lim = rng.randint(300, 3000)
+        B = wchoice(rng, [(2, 0), (5, rng.randint(1, 4))])
+        if kind == "fp_p":
+            return f"fp_p rbf {gen.arr_str(a)} sc {C} {rb_list_str(others)} {lim}"
+        if kind == "fp_fl":
+            return f"fp_fl rbf {gen.arr_str(a)} sc {C} {B} {rb_list_str(others)} {lim}"
+        if kind == "fp_np":
+            return f"fp_np {gen.arr_str(a)} {C} {B} {rb_list_str(others)} {lim}"
+        last = wchoice(rng, [(1, 1), (2, C), (4, rng.randint(1, C))])
+        return f"fp_lp {gen.arr_str(a)} {C} {last} {B} {rb_list_str(others)} {lim}"
     n = wchoice(rng, [(1, 0), (3, 1), (3, 2), (2, 3)])
     others = [gen.gen_task_rb(rng, scalar=(rng.random() < 0.85)) for _ in range(n)]
     lim = gen.gen_limit(rng)
@@ -289,6 +303,22 @@ def stream_fp(rng, n):
 
 def gen_edf_op(rng, kind=None):
     kind = kind or wchoice(rng, [(1, "edf_p"), (1, "edf_np"), (1, "edf_lp"), (1, "edf_fl")])
+    if rng.random() < 0.2:
+        # near-full utilisation: long busy windows, many offsets
+        hp, (a, C) = gen.gen_dense_taskset(rng)
+        lim = rng.randint(300, 3000)
+        D = rng.randint(1, 60)
+        def dl():
+            return wchoice(rng, [(3, rng.randint(1, 60)), (1, D)])
+        if kind == "edf_p":
+            return f"edf_p rbf {gen.arr_str(a)} sc {C} {D} {len(hp)}" + "".join(f" rbf {gen.arr_str(x)} sc {c} {dl()}" for x, c in hp) + f" {lim}"
+        if kind == "edf_np":
+            return f"edf_np {gen.arr_str(a)} {C} {D} {len(hp)}" + "".join(f" {gen.arr_str(x)} {c} {dl()}" for x, c in hp) + f" {lim}"
+        tail = f" {len(hp)}" + "".join(f" rbf {gen.arr_str(x)} sc {c} {dl()} {rng.randint(1, c)}" for x, c in hp) + f" {lim}"
+        if kind == "edf_lp":
+            last = wchoice(rng, [(1, 1), (2, C), (4, rng.randint(1, C))])
+            return f"edf_lp {gen.arr_str(a)} {C} {D} {last}" + tail
+        return f"edf_fl rbf {gen.arr_str(a)} sc {C} {D}" + tail
     n = wchoice(rng, [(1, 0), (3, 1), (3, 2), (2, 3)])
     lim = gen.gen_limit(rng)
     D = wchoice(rng, [(4, rng.randint(1, 40)), (1, rng.randint(40, 200)), (0.5, 0)])
@@ -492,9 +522,14 @@ STREAMS = {
 
 
 BUDGET = {
-    # stream: (quick, thorough)
-    "supply": (4000, 200000),
-    "fixed_point": (4000, 200000),
+    # stream: (quick, thorough); the cheap streams (microseconds per op on both sides) get more
+    "supply": (12000, 200000),
+    "fixed_point": (6000, 200000),
+    "arrival": (9000, 100000),
+    "steps": (9000, 100000),
+    "wcet": (9000, 100000),
+    "demand": (9000, 100000),
+    "derive": (6000, 100000),
 }
 
 
